@@ -179,12 +179,19 @@ def run_shard(spec, ctx):
                 n = r.choice([64, 65, 128, 129, 130, 256, 257, 1000])
                 ctx.count("long_sequences")
             if r.random() < 0.5:
-                s = "".join(r.choice("abcab ") for _ in range(n))
+                # (a position is a code point: combining marks, astral characters, zero-width joiners count one each)
+                alpha = "abcab " if r.random() < 0.7 else ["a", "b", "e\u0301", "\u0301", "\U0001f600", "\u05d1\u05b0", "o\u0308\u0304", "\u200d", " ", "\u00e9"]
+                s = "".join(r.choice(alpha) for _ in range(n))
+                n = len(s)
             else:
                 s = [r.choice(SYMS_L + [2, "b"]) for _ in range(n)]
             big = [r.choice([1, -1]) * r.choice([n, n + 1, n - 1, 2 * n, 2**31, 2**40, r.randint(0, n)]) for _ in range(3)]
             S = src(s)
             k = "str" if isinstance(s, str) else "list"
+            # length counts the positions that indexing and slicing address
+            fn_ = "substr" if k == "str" else "sublist"
+            R.expect("def q = %s; [length(q), q[0 to length(q)] == q, %s(q, 0, length(q)) == q, q[length(q) - 1] == q[-1], do q[length(q)] catch all 'out of range' end]" % (S, fn_),
+                     [n, True, True, True, "out of range"], "length-vs-positions:" + k, ("len-pos", S))
             for i in big:
                 R.expect("%s[%d]" % (S, i), rs.deref(s, i), "deref:%s:%s" % (k, cls(i, n)), ("deref", S, i))
                 for j in big:
